@@ -402,6 +402,9 @@ func (s *efState) shortPkg(fn *ssa.Function) string {
 		}
 		return fn.Pkg.Pkg.Path()
 	}
+	if w := wrappedMethod(fn); w != nil && w != fn && w.Pkg != nil {
+		return s.shortPkg(w) // a synthetic wrapper: the package of the method it wraps
+	}
 	return ""
 }
 
@@ -732,18 +735,22 @@ func (s *efState) dfsParam(p *ssa.Parameter, seen map[ssa.Value]bool, set map[*E
 			idx = i
 		}
 	}
-	node := s.cg.Nodes[fn]
 	found := false
-	if node != nil && idx >= 0 {
-		for _, e := range node.In {
-			if e.Site == nil {
-				continue
-			}
-			c := e.Site.Common()
+	if idx >= 0 {
+		// static call sites; a call of the pointer-receiver wrapper go/ssa makes for a value-receiver method enters
+		// the method with the same arguments after the receiver (synthwrap.go): the wrapper is looked through, it
+		// is never a caller of its own
+		direct, wrapped := staticSites(s.cg, fn)
+		for i, site := range append(direct, wrapped...) {
+			c := site.Common()
 			if c.IsInvoke() || idx >= len(c.Args) {
 				continue
 			}
-			if _, isGo := e.Site.(*ssa.Go); isGo {
+			if _, isGo := site.(*ssa.Go); isGo {
+				continue
+			}
+			if i >= len(direct) && idx == 0 && fn.Signature.Recv() != nil {
+				s.unknown(p, "receiver-through-wrapper", set)
 				continue
 			}
 			found = true
